@@ -135,7 +135,7 @@ def finalize(agg, tier):
                    "optimal_scaling_none": 12, "optimal_scaling_custom": 12, "optimal_scaling_GradJac": 12,
                    "optimal_scaling_Nominal": 12, "optimal_scaling_KKT": 12,
                    "optimal_rows_eq0": 12, "optimal_rows_eq": 12, "optimal_rows_ge": 12, "optimal_rows_le": 12,
-                   "optimal_rows_ranged": 12, "optimal_rows_freerow": 8, "optimal_badly_scaled_rows": 20, "optimal_vars_fixed": 12, "optimal_vars_boxed": 12,
+                   "optimal_rows_ranged": 12, "optimal_rows_freerow": 5, "optimal_badly_scaled_rows": 20, "optimal_vars_fixed": 12, "optimal_vars_boxed": 12,
                    "optimal_with_active_bound_multiplier": 40, "optimal_with_row_multiplier": 40},
         "assumptions": ["tolerances: optimality tolerance times the exact power-of-two factor of the quantity, times "
                         "(1+1e-6), plus 1e-13 x magnitude for summation order; complementarity of rows additionally "
